@@ -225,5 +225,7 @@ def enc_expire(daddr, spi, proto, hard, family=socket.AF_INET, saddr=None):
 
 
 def enc_ack(request, error=0):
-    """NLMSG_ERROR reply (error 0 = ack) echoing the request header, as netlink_ack does."""
-    return nlmsg(NLMSG_ERROR, struct.pack('=i', error) + bytes(request[:16]), seq=struct.unpack_from('=I', request, 8)[0])
+    """NLMSG_ERROR reply as netlink_ack builds it: an acknowledgement (error 0) echoes the request HEADER, an error echoes the WHOLE request
+    (the socket did not ask for NETLINK_CAP_ACK)."""
+    echoed = bytes(request[:16]) if error == 0 else bytes(request)
+    return nlmsg(NLMSG_ERROR, struct.pack('=i', error) + echoed, seq=struct.unpack_from('=I', request, 8)[0])
